@@ -32,7 +32,7 @@ func (c *Chain) CancelStream(n int) {
 			var baseBytes []byte
 			if base.Post != nil {
 				baseBytes = EncodeState(base.Post)
-				post = c.Rec.StateBytes(StateFork(base.Post), baseBytes)
+				post = c.Rec.State(base.Post)
 			}
 			c.Rec.Line("slots %s %d %s", hs.PreID, hs.Target, post)
 			for k := 0; k <= base.Polls; k++ {
@@ -46,6 +46,9 @@ func (c *Chain) CancelStream(n int) {
 			return
 		}
 		hs := c.Honest[r.Intn(len(c.Honest))]
+		if hs.Rejected {
+			continue
+		}
 		raw, fk := c.Rec.StateRaw(hs.PreID)
 		pre, err := DecodeState(c.Spec, fk, raw)
 		if err != nil {
@@ -57,7 +60,7 @@ func (c *Chain) CancelStream(n int) {
 		var baseBytes []byte
 		if base.Post != nil {
 			baseBytes = EncodeState(base.Post)
-			post = c.Rec.StateBytes(StateFork(base.Post), baseBytes)
+			post = c.Rec.State(base.Post)
 		}
 		line := c.Rec.Line("trans %s %s 1 %s %s kind=honest ctx=fresh replay=1", hs.PreID, hs.BlkID, hs.Engine, post)
 		c.recordEngine(line, base.Engine)
@@ -101,7 +104,7 @@ func (c *Chain) EngineStream(n int) {
 	r := c.Rng.Fork()
 	var withPayload []HonestStep
 	for _, h := range c.Honest {
-		if h.Engine == "valid" && (h.Blk.Fork >= Capella || h.Blk.Payload.BlockHash != (common.Root{})) {
+		if !h.Rejected && h.Engine == "valid" && (h.Blk.Fork >= Capella || h.Blk.Payload.BlockHash != (common.Root{})) {
 			withPayload = append(withPayload, h)
 		}
 	}
